@@ -226,11 +226,13 @@ pub fn run(ctx: &RunCtx) -> i32 {
     let shared = Shared::new();
     // (configuration, requests, stagger, learned-RTO scenario, depth, time detail)
     let mut jobs: Vec<(Cfg, usize, u64, bool, usize, TimeDetail)> = vec![];
-    let rcs: Vec<u32> = if thorough { (1..=10).collect() } else { (1..=7).collect() };
-    for rto in [37u64, 100, 500] {
+    let rcs: Vec<u32> = (1..=10).collect();
+    let rtos: Vec<u64> = if thorough { vec![1, 37, 100, 500, 3000, 70_000] } else { vec![1, 37, 100, 500, 70_000] };
+    let rms: Vec<u32> = if thorough { vec![1, 2, 3, 7, 15, 16, 17, 32] } else { vec![1, 2, 3, 16, 17, 32] };
+    for rto in rtos {
         for rc in &rcs {
-            for rm in [1u32, 2, 16, 32] {
-                for gran in [1u64, 10] {
+            for rm in rms.clone() {
+                for gran in [1u64, 10, 2000] {
                     let cfg = Cfg { transport: Transport::Unreliable { rto_ms: rto, gran_ms: gran, rm, rc: *rc }, mech: Mech::None, fingerprint: false, max_tx: 10 };
                     let depth = *rc as usize + 4;
                     jobs.push((cfg, 1, 0, false, depth, TimeDetail::Fine));
@@ -296,7 +298,7 @@ pub fn run(ctx: &RunCtx) -> i32 {
         rep,
         Finish {
             level: "model_checking",
-            rule: format!("breadth-first exploration of the real client over timer calls at every region representative (each schedule point S_k and the deadline D: -1 ms, exact, +1 ms, midpoints, beyond all deadlines, and 'now') for {} jobs: RTO {{37,100,500}} ms x Rc {:?} x Rm {{1,2,16,32}} x granularity {{1,10}} ms with one request run to completion; reliable 100 ms / 39.5 s; 2, 3 and 4 requests started 30 / 137 (thorough also 1) ms apart sharing the timer; learned-RTO scenarios (first transaction answered after 7 ms, next request runs on the learned interval read through H1); the default configuration driven by the announced durations must give 0/500/1500/3500/7500/15500/31500 and failure at 39500 ms; deviation-bounded runs (<= {} deviations) on the defaults and on Rc 10 / Rm 32. Monitor in integer nanoseconds: first copy in send_request, further copies only in timer calls, one per call, byte-identical, each consuming a schedule point in (last transmission, now], never at or after D, at most Rc; a timer call with an open slot before D does retransmit; failure exactly in the first timer call at or after D", jobs.len(), rcs, if thorough { 4 } else { 3 }),
+            rule: format!("breadth-first exploration of the real client over timer calls at every region representative (each schedule point S_k and the deadline D: -1 ms, exact, +1 ms, midpoints, beyond all deadlines, and 'now') for {} jobs: RTO {{1,37,100,500,70000 (thorough +3000)}} ms x Rc {:?} x Rm {{1,2,3,16,17,32 (thorough +7,15)}} x granularity {{1,10,2000}} ms with one request run to completion; reliable 100 ms / 39.5 s; 2, 3 and 4 requests started 30 / 137 (thorough also 1) ms apart sharing the timer; learned-RTO scenarios (first transaction answered after 7 ms, next request runs on the learned interval read through H1); the default configuration driven by the announced durations must give 0/500/1500/3500/7500/15500/31500 and failure at 39500 ms; deviation-bounded runs (<= {} deviations) on the defaults and on Rc 10 / Rm 32. Monitor in integer nanoseconds: first copy in send_request, further copies only in timer calls, one per call, byte-identical, each consuming a schedule point in (last transmission, now], never at or after D, at most Rc; a timer call with an open slot before D does retransmit; failure exactly in the first timer call at or after D", jobs.len(), rcs, if thorough { 4 } else { 3 }),
             assumptions: vec!["RTO_i is the interval recorded for the transaction at send time (H1); whether it is the right estimate is C15's question".into(), "region representatives instead of all instants".into()],
             required_symbols: vec!["bfs-configs", "retransmitted-in-slot", "late-call-skipped-slots", "failed-at-deadline", "early-call-no-retransmission", "learned-rto-scenarios", "deviation-runs", "default-schedule-0-500-1500-3500-7500-15500-31500-fail-39500"],
             min_outcomes: 5,
